@@ -75,6 +75,37 @@ SpentOnlyWithUnlock(s, t) == \A a \in DOMAIN s.ent.locked :
    t.ent.spent[a] - s.ent.spent[a] = Max(s.ent.locked[a] - t.ent.locked[a], 0)
 C05Step(s, t, ev) == LockedDropsOnlyByFeeTx(s, t, ev) /\ (ev.a # "BeginBlock" => SpentOnlyWithUnlock(s, t))
 
+\* completing a purchase order never increases anybody's spendable balance (observed spendable: s.spend)
+CompletionDoesNotRaiseSpendable(s, t, ev) == ev.a = "BeginBlock" =>
+   \A a \in DOMAIN s.spend : \A d \in Denoms : t.spend[a][d] <= s.spend[a][d]
+\* the one known way this fails (DESIGN Appendix A, H-VestingUnlock): the purchaser is a vesting account and the
+\* bank books the enterprise lock as delegated vesting, releasing exactly min(still-vesting, completed amount)
+RaisedSpendable(s, t) == { <<a, d>> \in (DOMAIN s.spend) \X Denoms : t.spend[a][d] > s.spend[a][d] }
+OnlyVestingPurchaserRise(s, t, ev) == ev.a = "BeginBlock" /\ RaisedSpendable(s, t) # {} /\
+   \A p \in RaisedSpendable(s, t) :
+      /\ p[1] \in DOMAIN s.vest
+      /\ t.spend[p[1]][p[2]] - s.spend[p[1]][p[2]] = Min(VestLocked(s, p[1], p[2]), NewlyCompleted(s, t, p[1]))
+\* the spendable balance the bank reports is the balance minus what vesting still locks
+SpendableConsistent(o) == \A a \in DOMAIN o.spend : \A d \in Denoms : o.spend[a][d] = Spendable(o, a, d)
+
+------------------------------------------------------------------------------
+(* C17: the enterprise supply queries (o.q is recorded at block boundaries) *)
+LockedOf(o, d) == IF d = o.ent.p.denom THEN o.ent.totLocked ELSE 0
+SupplyOfOk(o) == \A d \in Denoms : o.q.supplyOf[d] = o.supply[d] - LockedOf(o, d)
+StakeSupplyUnchanged(o) == o.q.supplyOfStake = o.q.bankStake
+EntSupplyOk(o) ==
+  LET e == o.q.entSupply IN
+  /\ e.denom = o.ent.p.denom
+  /\ e.total = o.supply[e.denom] /\ e.locked = o.ent.totLocked /\ e.unlocked = e.total - e.locked
+  /\ e.unlocked >= 0 /\ e.locked >= 0
+  /\ o.q.totalUnlocked.amt = e.unlocked
+PageOk(o, pg) ==
+  /\ pg.ok
+  /\ pg.denoms = o.q.denoms                       \* every denomination exactly once, in key order
+  /\ \A i \in DOMAIN pg.denoms :
+        pg.amts[i] = (IF pg.denoms[i] \in Denoms THEN o.supply[pg.denoms[i]] - LockedOf(o, pg.denoms[i]) ELSE o.q.bank[pg.denoms[i]])
+PagesOk(o) == \A k \in DOMAIN o.q.pages : PageOk(o, o.q.pages[k])
+
 ------------------------------------------------------------------------------
 (* C07 / C08 / C09 on the registries *)
 ChCommon(s, t, k) == 1..Min(Len(s[k].ch), Len(t[k].ch))
